@@ -113,13 +113,17 @@ class Exec:
         self.steps0 = loop.steps
         self.nreads = 0
         self.sealed = False
+        # largest chunk size the APPLICATION has asked for so far (read(n), iter_chunked(n), an explicit
+        # max_size, client_max_size for BaseRequest.read(); CAP for read()): the memory bound is stated
+        # relative to max(read_bufsize, req), never relative to limits the code raised on its own
+        self.req = 0
 
     # ---- observation
     def obs(self) -> dict:
         rd = self.reader
         if rd is None:
             return {"size": -1, "low": self.limit, "high": 2 * self.limit, "consumed": self.consumed,
-                    "steps": self.loop.steps - self.steps0}
+                    "steps": self.loop.steps - self.steps0, "req": cap(self.req)}
         low, high = rd.get_read_buffer_limits()
         if self.in_read:
             # inside a read call the public counters lag (bytes already taken are not yet returned)
@@ -129,7 +133,7 @@ class Exec:
         else:
             size = rd.total_bytes - self.consumed
         return {"size": cap(size), "low": cap(low), "high": cap(high), "consumed": cap(self.consumed),
-                "steps": self.loop.steps - self.steps0}
+                "steps": self.loop.steps - self.steps0, "req": cap(self.req)}
 
     QUIESCENT = ("net", "read", "start", "eof", "err", "srv", "stuck")
 
@@ -189,9 +193,32 @@ class Exec:
     # ---- the application
     async def one_read(self, content: Any, op: tuple, iters: dict) -> Tuple[bytes, bool]:
         kind = op[0]
+        if kind in ("read", "iter_chunked", "readuntil_max"):
+            self.req = max(self.req, op[1])
+        elif kind in ("readall", "readstep"):
+            self.req = CAP
         self.in_read = True
         try:
-            if kind == "read":
+            if kind == "readline":
+                d = await content.readline()
+                end = d == b""
+            elif kind == "readuntil":              # readuntil(sep) without max_size
+                d = await content.readuntil(op[1].encode("latin-1"))
+                end = d == b""
+            elif kind == "readuntil_max":          # readuntil(b"\n", max_size=n)
+                d = await content.readuntil(b"\n", max_size=op[1])
+                end = d == b""
+            elif kind == "aiter":                  # async for line in content
+                it = iters.get(op)
+                if it is None:
+                    it = content.__aiter__()
+                    iters[op] = it
+                try:
+                    d = await it.__anext__()
+                    end = False
+                except StopAsyncIteration:
+                    d, end = b"", True
+            elif kind == "read":
                 d = await content.read(op[1])
                 end = d == b""
             elif kind == "readany":
@@ -224,7 +251,8 @@ class Exec:
         self.consumed += len(d)
         self.crc = zlib.crc32(d, self.crc)
         self.nreads += 1
-        self.rec("read", s=kind, n=(op[1] if len(op) > 1 else -1), m=len(d), k=B.dg31(self.crc))
+        self.rec("read", s=kind, n=(op[1] if len(op) > 1 and isinstance(op[1], int) else -1), m=len(d),
+                 k=B.dg31(self.crc))
         if end:
             self.rec("eof", k=self.prefix_dg())
         return d, end
@@ -418,6 +446,13 @@ def run_server(loop: steploop.StepLoop, plan: dict) -> dict:
             else:
                 x.reader = content
                 x.rec("start")
+                if op in ("read", "post") and plan["cms"]:
+                    x.req = plan["cms"]        # BaseRequest.read() works in pieces of client_max_size
+                elif op == "mpost":
+                    # post() reads multipart fields with read_chunk(8192) / read_chunk(DEFAULT_CHUNK_SIZE):
+                    # that constant is the chunk size this consumer asks for
+                    from aiohttp import helpers
+                    x.req = max(8192, int(getattr(helpers, "DEFAULT_CHUNK_SIZE", 2 ** 18)))
                 x.in_read = True
                 try:
                     if op == "read":
@@ -708,6 +743,96 @@ def error_after_chunk_end_plans(ctx: Ctx, rng: Any, bodies: List[B.Body]) -> Lis
     return plans
 
 
+SLICE_LIMITS = [64, 1024, 65536]
+
+
+def slice_aligned_plans(ctx: Ctx, rng: Any) -> List[dict]:
+    """Multi-member / multi-frame bodies (single stream for br) whose decoded size reaches the decoder's
+    slice limit (= read_bufsize while the application does not ask for more) exactly at, one byte before
+    and one byte after a member end, with further members behind; delivered in one read (no later wire
+    data will carry parked input along) and in several; every kind of consumer.  Judged for completeness."""
+    plans = []
+    for L in SLICE_LIMITS:
+        pats = [[L // 4] * 5 + [3], [L, 5, L, 7], [L - 1, 9, L + 1, 3], [L + 1, L - 1, 2], [L // 2] * 4 + [1],
+                [2 * L, 3], [L, L, L]]
+        for codec in B.CODECS:
+            if codec == "identity":
+                continue
+            for pi, pat in enumerate(pats):
+                parts = [B._mixed(rng, n) for n in pat]
+                if codec in B.MULTI:
+                    enc, marks = B.concat_members(codec, parts)
+                else:
+                    enc, marks = B.encode(codec, b"".join(parts)), []
+                body = B.Body(f"{codec}/slice{L}-p{pi}", codec, enc, B.Ref(True, b"".join(parts)), "members", marks)
+                consumers = [[("readany",)], [("read", max(1, L // 2))], [("readchunk",)], [("iter_any",)],
+                             [("iter_chunked", L)], [("read", L)], [("pause", 9), ("readany",)]]
+                picks = [(rng.choice(consumers), "one"), (rng.choice(consumers), "several")]
+                if not ctx.quick:
+                    picks += [(c, rng.choice(["one", "several"])) for c in consumers]
+                for sched, delivery in picks:
+                    side = "server" if rng.random() < 0.25 else "client"
+                    framing = rng.choice(["length", "chunked", "eof"] if side == "client" else ["length", "chunked"])
+                    plan: Dict[str, Any] = {"side": side, "codec": codec, "framing": framing, "enc": enc,
+                                            "ref": body.ref, "limit": L, "name": body.name + "/" + delivery,
+                                            "kind": "members", "gap": 0 if delivery == "one" else rng.choice([0, 2, 4]),
+                                            "glue": delivery == "one" or rng.random() < 0.3, "cyield": rng.choice([0, 0, 2]),
+                                            "sched": sched}
+                    if framing == "chunked":
+                        plan["chunks"] = rng.choice(B.chunk_plans(rng, len(enc), marks)[:1] + B.chunk_plans(rng, len(enc), marks)[2:])
+                    if delivery == "one":
+                        plan["cuts"] = []
+                    else:
+                        n = len(B.frame(enc, framing, plan.get("chunks"))[0])
+                        plan["cuts"] = sorted({rng.randrange(1, n) for _ in range(rng.choice([1, 2, 4]))}) if n > 1 else []
+                        if framing != "chunked" and marks and rng.random() < 0.5:
+                            plan["cuts"] = list(marks)
+                    if side == "server":
+                        plan.update(srvop="stream", cms=0, name="srv/stream/" + plan["name"])
+                    plans.append(plan)
+    return plans
+
+
+def line_plans(ctx: Ctx, rng: Any) -> List[dict]:
+    """Line-by-line consumers (readline, `async for line in content`, readuntil(sep), readuntil with an
+    explicit max_size, mixed with read(n)) on highly compressible text whose wire bytes arrive at once
+    or in pieces: the bytes must be right and the buffered amount must stay within the bound that
+    read_bufsize (and what the application explicitly asked for) gives."""
+    plans = []
+    for L in SLICE_LIMITS:
+        w = max(8, L // 2)
+        total = ctx.pick(40, 200) * L
+        texts = {"zeros": (b"0" * (w - 1) + b"\n") * (total // w),
+                 "ragged": b"".join(bytes([97 + k % 26]) * rng.randint(0, w - 1) + b"\n" for k in range(total // w)) + b"no newline at the end",
+                 "semi": (b"v" * (w - 1) + b";") * (total // w)}
+        for codec in B.CODECS:
+            for tname, text in texts.items():
+                enc = B.encode(codec, text)
+                ref = B.Ref(True, text)
+                if tname == "semi":           # records end in ";", there is no newline at all
+                    consumers = [[("readuntil", ";")], [("pause", 5), ("readuntil", ";")],
+                                 [("readuntil", ";"), ("read", 7), ("readuntil", ";")]]
+                else:
+                    consumers = [[("readline",)], [("aiter",)], [("readuntil", "\n")], [("readuntil_max", 2 * L + 3)],
+                                 [("readline",), ("read", 7), ("readline",)], [("pause", 5), ("aiter",)]]
+                for sched in (consumers if not ctx.quick else [rng.choice(consumers[:3]), rng.choice(consumers)]):
+                    side = "server" if rng.random() < 0.25 else "client"
+                    framing = rng.choice(["length", "chunked", "eof"] if side == "client" else ["length", "chunked"])
+                    n = len(enc)
+                    plan: Dict[str, Any] = {"side": side, "codec": codec, "framing": framing, "enc": enc, "ref": ref,
+                                            "limit": L, "name": f"{codec}/lines{L}-{tname}", "kind": "lines",
+                                            "gap": rng.choice([0, 0, 3]), "glue": rng.random() < 0.5, "cyield": 0,
+                                            "sched": sched,
+                                            "cuts": rng.choice([[], [n // 2], sorted({rng.randrange(1, n) for _ in range(3)})])}
+                    if framing == "chunked":
+                        plan["chunks"] = rng.choice([[n], [max(1, n // 3)] * 4])
+                        plan["cuts"] = [c for c in plan["cuts"]][:1]
+                    if side == "server":
+                        plan.update(srvop="stream", cms=0, name="srv/stream/" + plan["name"])
+                    plans.append(plan)
+    return plans
+
+
 def form_bodies(rng: Any) -> List[B.Body]:
     """Bodies that post() can parse: a=<latin-1 text without separators>."""
     out = []
@@ -769,13 +894,21 @@ def run_plan(loop: steploop.StepLoop, plan: dict) -> dict:
 def plan_to_json(plan: dict) -> dict:
     d = {k: v for k, v in plan.items() if k not in ("enc", "ref")}
     d["enc"] = list(plan["enc"]) if len(plan["enc"]) <= 4096 else None
+    if d["enc"] is None:
+        import base64
+        z = zlib.compress(plan["enc"], 9)
+        d["encz"] = base64.b64encode(z).decode() if len(z) <= 1 << 18 else None
     d["sched"] = [list(o) for o in plan.get("sched") or []]
     return d
 
 
 def plan_from_json(d: dict) -> dict:
     plan = dict(d)
-    if d.get("enc") is None:
+    if d.get("enc") is None and d.get("encz"):
+        import base64
+        plan["enc"] = zlib.decompress(base64.b64decode(d["encz"]))
+        plan["ref"] = B.reference(d["codec"], plan["enc"])
+    elif d.get("enc") is None:
         codec = d["codec"]
         mb = int(d["name"].split("bomb")[1].split("M")[0])
         body = [b for b in B.bombs(True, [codec]) + B.bombs(False, [codec]) if f"bomb{mb}M" in b.name][0]
@@ -830,10 +963,12 @@ def judge(ctx: Ctx, traces: List[dict], label: str) -> None:
 # ---------------------------------------------------------------- model configurations
 BASE_CONSTS: Dict[str, Any] = dict(
     Mode='"Chunked"', Codec='"zlib"', Side='"client"', Limit=1, Big=6, MaxPieces=4, MaxUnits=1,
-    ReadSizes="{1, 3, 1000}", ClientMax=2, WithMembers="FALSE", WithCorrupt="FALSE", WithTrunc="FALSE", MidChunkCuts="TRUE", ZeroUnits="TRUE",
+    ReadSizes="{0, 1, 3, 1000}", ClientMax=2, WithMembers="FALSE", WithCorrupt="FALSE", WithTrunc="FALSE", MidChunkCuts="TRUE", ZeroUnits="TRUE",
     ClearStalePause="TRUE", EofKeepsParser="TRUE", UseBudget="TRUE", ResumeReenters="TRUE",
-    PauseReachesParser="TRUE", KeepPending="TRUE", CheckEachChunk="TRUE", ErrChecked="TRUE")
+    PauseReachesParser="TRUE", KeepPending="TRUE", CheckEachChunk="TRUE", ErrChecked="TRUE",
+    PendingCountsAvail="TRUE", LineKeepsLimits="TRUE")
 SAFETY = ["Resident", "OneCallBudget", "NoInputLost", "ErrorNotData", "NoDeadlock", "NoSpuriousFailure",
+          "EofMeansAllDelivered",
           "HeldBackImpliesPaused", "MaxSize", "NeverReturnsMore"]
 
 
@@ -1143,9 +1278,10 @@ def full_consts(over: Dict[str, Any]) -> Dict[str, Any]:
 
 def replay_phase(ctx: Ctx, loop: steploop.StepLoop, stale: bool) -> List[dict]:
     """Driver A: transition cover of a small graph + simulated behaviours, on the configuration that mirrors the code."""
-    dev = dict(ClearStalePause=not stale, EofKeepsParser=not stale, MidChunkCuts=False)
+    # (line reads - read size 0 - are model-checked but not replayed: the rendered units carry no separators)
+    dev = dict(ClearStalePause=not stale, EofKeepsParser=not stale, MidChunkCuts=False, ReadSizes="{1, 3, 1000}")
     traces: List[dict] = []
-    cov = dict(Mode="Chunked", Codec="zlib", Limit=1, MaxPieces=2, MaxUnits=1, ReadSizes="{1, 1000}", **dev)
+    cov = dict(dev, Mode="Chunked", Codec="zlib", Limit=1, MaxPieces=2, MaxUnits=1, ReadSizes="{1, 1000}")
     behs, cres = cover_behaviours("BodyFlow", write_cfg(cov, invs=[], props=[]), timeout=600)
     ctx.extra["transition_cover"] = {"model": cname(cov), "paths": len(behs),
                                      "edges_traversed": sum(len(b) - 1 for b in behs), "states": cres.distinct}
@@ -1226,6 +1362,8 @@ def run(ctx: Ctx) -> None:
     plans += plateau_plans(ctx, rng, good, ctx.pick(2, 6))
     plans += error_after_chunk_end_plans(ctx, rng, bodies)
     plans += multipart_plans(ctx, rng)
+    plans += slice_aligned_plans(ctx, rng)
+    plans += line_plans(ctx, rng)
     plans += bomb_plans(ctx, rng)
     ctx.log(f"{len(plans)} corpus executions planned ({len(bodies)} bodies)")
     batch: List[dict] = []
@@ -1263,6 +1401,11 @@ MUTANTS: List[Tuple[str, Dict[str, Any], Tuple[str, ...]]] = [
      ("NoDeadlock", "NoSpuriousFailure", "HeldBackImpliesPaused", "Deadlock")),
     ("stored payload error not raised by read", dict(Mode="Length", Codec="zlib", WithCorrupt=True, ErrChecked=False),
      ("ErrorNotData",)),
+    ("data_available forgets input parked at a member end", dict(Mode="Length", Codec="zstd", WithMembers=True,
+                                                                  PendingCountsAvail=False, MaxPieces=2, MaxUnits=3),
+     ("EofMeansAllDelivered", "NoDeadlock", "Deadlock", "HeldBackImpliesPaused")),
+    ("line reads raise the water marks", dict(Mode="Length", Codec="zlib", LineKeepsLimits=False),
+     ("Resident", "OneCallBudget")),
 ]
 
 
